@@ -1,5 +1,6 @@
 """C12 - verify() reports a syntax error exactly when CPython's parser rejects the source."""
 import ast
+import re
 import traceback
 
 ID = 'C12'
@@ -9,9 +10,9 @@ LEVEL_TEXT = ('Held on the texts observed: every text is parsed by CPython (acce
               'pedal; never-raises, feedback-iff-rejected, reported line, blank handling and the stored tree are '
               'compared. Exploration over generated programs, stdlib/pedal corpus files, 1-3 character/line edits of '
               'them and a hostile text list; not a proof over all strings.')
-LEVEL_NOTE = ('Oracle = the same CPython parser pedal calls; texts on which the parser itself exhausts resources '
-              '(RecursionError/MemoryError) or that cannot be encoded (lone surrogates) are outside the quantifier '
-              'and skipped.')
+LEVEL_NOTE = ('Oracle = the same CPython parser pedal calls. For texts on which the parser itself gives up without a SyntaxError '
+              '(its stack is exhausted: RecursionError/MemoryError; a lone surrogate cannot be encoded) there is no line to compare: '
+              'verify() must still return, return False and attach a syntax feedback.')
 RULE = ('Texts: generated CS1 programs and corpus files (accepted class), 1-3 edits of them from a weighted alphabet '
         '(quotes, brackets, tabs, form feed, NUL, CR, BOM, non-ASCII), and a fixed hostile list (empty, whitespace-only, '
         'NUL anywhere, CR-only line ends, unterminated strings/brackets, mixed tabs). Through contextualize_report+'
@@ -24,6 +25,9 @@ BUDGET = {'quick': 40, 'thorough': 900}
 MIN_NONTRIVIAL = {'quick': 1000, 'thorough': 50000}
 
 HOSTILE = [
+    "x = '\ud800'\n", "\ud800 = 1\n", "# comment \udfff\nx = 1\n", "print('a')\nname_\udc80 = 2\n", "-" * 100000 + "1", "x = " + "not " * 60000 + "True\n",
+    "y = 1\nx = " + "~" * 90000 + "1\n", "(" * 5000 + "1" + ")" * 5000, "[" * 3000 + "]" * 3000, "x = " + "1 + " * 100000 + "1\n", "a" + ".b" * 100000 + "\n",
+    "x = " + "f(" * 2000 + ")" * 2000 + "\n", "if x:\n" * 150 + "pass\n",
     '', ' ', '\n', '\n\n\n', '\t', '   \n  \n', '\x0c', '\x0c\n', '\r', '\r\n', '\r\n\r\n', '\xa0', ' ', '﻿',
     '﻿x = 1\n', 'x = 1\r\ny = 2\r\n', 'x = 1\ry = 2\r', 'x = 1\ry = = 2', 'if x:\rprint(x)\r',
     'x = 1\x00', '\x00', 'x\x00 = 1\ny = 2\n', 'a = 1\nb = "\x00"\n', '# c\x00\n', 'x = 1\n\x00', 'x = (1,\x00',
@@ -63,9 +67,9 @@ def reference(text):
     except SyntaxError as e:
         return 'reject', e
     except (RecursionError, MemoryError) as e:
-        return 'skip', type(e).__name__
+        return 'giveup', e          # the parser's own stack is exhausted: no tree, and no SyntaxError object either
     except (UnicodeEncodeError, UnicodeDecodeError) as e:
-        return 'skip', type(e).__name__
+        return 'giveup', e          # a lone surrogate cannot be encoded for the parser
     except ValueError as e:   # e.g. null bytes on interpreters that raise ValueError
         return 'reject', e
 
@@ -77,9 +81,6 @@ def check_text(ctx, text, origin, mode):
     from pedal.source import verify, set_source
     case = {'text': text, 'origin': origin, 'mode': mode}
     kind, ref = reference(text)
-    if kind == 'skip':
-        ctx.count('skipped_parser_resource_or_encoding')
-        return
     sec_offset = 0
     if mode == 'section':
         # the text is the 2nd section of a larger file; lines must be reported in whole-file numbering
@@ -87,15 +88,13 @@ def check_text(ctx, text, origin, mode):
         prefix = case.get('prefix')
         if prefix is None:
             prefix = case['prefix'] = SECTION_PREFIXES[len(text) % len(SECTION_PREFIXES)]
-        if '##### Part' in text or '\r' in text:
+        if '##### Part' in text:
             mode = case['mode'] = 'verify'
         else:
             whole = prefix + '##### Part 1\n' + text
-            sec_offset = prefix.count('\n')
+            sec_offset = len(re.findall(r'\r\n|\r|\n', prefix))        # lines as CPython counts them: \n, \r\n and a lone \r end a line
             text_in_section = '\n' + text
             kind, ref = reference(text_in_section)
-            if kind == 'skip':
-                return
             report = MAIN_REPORT
             clear_report()
 
@@ -135,6 +134,17 @@ def check_text(ctx, text, origin, mode):
     nt = None
     if ret is not True and ret is not False:
         ctx.violation('C12|return-not-bool', case, repr(ret))
+    if kind == 'giveup':
+        # CPython produces no tree (and no SyntaxError): the text does not parse; verify() returns, says so, and stores no student tree
+        ctx.count('texts_the_parser_gives_up_on')
+        ctx.seen('cpython_error_classes', type(ref).__name__)
+        if not syn_cat:
+            ctx.violation('C12|missed-syntax-error|%s' % type(ref).__name__, case, 'CPython: %r; report feedback labels: %s' % (ref, [f.label for f in report.feedback]))
+        if ret is not False:
+            ctx.violation('C12|success-true-on-rejected', case, repr(ret))
+        ctx.seen('modes', mode)
+        ctx.case('T:' + text[:2000])
+        return
     if kind == 'reject':
         nt = 'T:' + text
         cls = type(ref).__name__
@@ -199,7 +209,7 @@ def check_text(ctx, text, origin, mode):
 
 
 MODES = ['verify', 'verify', 'set_source', 'private', 'section']
-SECTION_PREFIXES = ['', 'a = 1\n', 'a = 1\nb = 2\n\n', '# page\x0cbreak\nx = "\x0c"\n', 'import math\n\n\n\n',
+SECTION_PREFIXES = ['a = 1\rb = 2\n', 'a = 1\r\nb = 2\r\n', 'x = 1\r\r\ny = 2\n', '', 'a = 1\n', 'a = 1\nb = 2\n\n', '# page\x0cbreak\nx = "\x0c"\n', 'import math\n\n\n\n',
                     's = "\u2028"\nt = "\x1c\x1d"\n', '\n\n', 'def f():\n    return 1\n']
 
 
